@@ -3,6 +3,7 @@ From Coq Require Import List NArith Arith Bool.
 From SKV Require Import Base.Lex Txn.WriteSet Spec.Store.
 From SKV Require Import Crash.Proto Crash.ProtoSpec Crash.ProtoRefute Crash.Proto_proofs Crash.ProtoRecovery_proofs.
 From SKV Require Import Codec.VlogParams Lsm.VlogOpen Lsm.VlogOpenSpec Lsm.VlogOpen_proofs.
+From SKV Require Lsm.ArenaParams Lsm.Arena Lsm.ArenaSpec Lsm.Arena_proofs.
 Import ListNotations.
 
 (* recovery as a specification: the state after the first n commits; states of longer prefixes
@@ -74,3 +75,22 @@ Proof. exact open_keeps_or_empties_torn. Qed.
 
 Theorem C07_torn_vlog_header_refused_without_repair : torn_header_refused_without_repair_stmt.
 Proof. exact torn_header_refused_without_repair. Qed.
+
+(* memtable arena accounting (Lsm/Arena.v; sizes and formulas GENERATED from src/memtable/{skiplist,arena,mod}.rs): a batch that
+   the pre-WAL size check admits is accepted by an EMPTY memtable whatever tower heights are drawn — so a logged batch can always
+   be applied after a rotation and replayed by recovery; a granted reservation of MemTable::add cannot run out.  Before 99893dd the
+   bound lacked the max_unused_tower term: refuted by a closed witness (finding F55) *)
+Theorem C07_arena_params : Arena.arena_params_ok = true /\ ArenaParams.ARENA_ANCHORS_OK = true.
+Proof. split; reflexivity. Qed.
+
+Theorem C07_reservation_sufficient : ArenaSpec.reservation_sufficient_stmt.
+Proof. exact Arena_proofs.reservation_sufficient. Qed.
+
+Theorem C07_admitted_batch_fits_empty_memtable : ArenaSpec.admitted_fits_empty_stmt ArenaParams.ARENA_BOUND_HAS_UNUSED_TOWER.
+Proof. exact (Arena_proofs.admitted_fits_empty ArenaParams.ARENA_BOUND_HAS_UNUSED_TOWER eq_refl). Qed.
+
+Theorem C07_admission_bound_height_free : ArenaSpec.bound_height_free_stmt.
+Proof. exact Arena_proofs.bound_height_free. Qed.
+
+Theorem C07_old_admission_bound_refuted : ArenaSpec.old_bound_refuted_stmt.
+Proof. exact Arena_proofs.old_bound_refuted. Qed.
